@@ -1030,6 +1030,26 @@ def fam_mtype(tier):
             # first fragment, later fragment
             sc.line(nmea.line(n=2, k=1, sid=3, payload=bytes([c]) + rest), 0, dec)
             sc.line(nmea.line(n=2, k=2, sid=3, payload=bytes([c]) + rest[:5]), 0, dec)
+            # short payloads with every fill count
+            for fill in range(6):
+                sc.line(nmea.line(payload=bytes([c]), fill=fill), 0, dec)
+                sc.line(nmea.line(payload=bytes([c]) + rest[:1], fill=fill, chan=b"B"), 0, dec)
+                sc.line(nmea.line(n=2, k=1, sid=fill, payload=bytes([c]), fill=fill), 0, dec)
+    # history: the sentence's own first character decides, whatever group is open or was delivered before
+    for c in list(nmea.ARMOR):
+        sc.unit()
+        sc.new(0)
+        other = nmea.ARMOR[(nmea.ARMOR.index(c) * 7 + 5) % 64]
+        rest = rand_armor(rnd, 9)
+        for dec in (0, 1):
+            sc.line(nmea.line(n=3, k=1, sid=1, payload=bytes([other]) + rest), 0, dec)        # a group stays open
+            sc.line(nmea.line(payload=bytes([c]) + rest), 0, dec)                               # unfragmented meanwhile
+            sc.line(nmea.line(n=3, k=2, sid=1, payload=bytes([c]) + rest[:3]), 0, dec)          # continuation
+            sc.line(nmea.line(n=3, k=3, sid=1, payload=bytes([c]) + rest[:2]), 0, dec)          # delivery
+            sc.line(nmea.line(payload=bytes([c]) + rest), 0, dec)                               # after the delivery
+            sc.line(nmea.line(n=2, k=1, sid=2, payload=bytes([other]) + rest), 0, dec)        # abandoned group
+            sc.line(nmea.line(n=2, k=1, sid=4, payload=bytes([c]) + rest), 0, dec)
+            sc.line(nmea.line(n=2, k=2, sid=4, payload=bytes([other]) + rest[:4]), 0, dec)
     return sc
 
 
@@ -1296,4 +1316,39 @@ def fam_totality(tier):
     for r in range(256):
         sc.rot(r)
         sc.ship(r)
+    return sc
+
+
+
+def fam_text_small(tier):
+    """Text trimming on every text field with padding that mixes '@' and blanks at both ends (compact: meant to be
+    run on all three builds, which have separate trimming code paths)."""
+    import itertools
+    tb = T.tables()
+    rnd = rng("textsmall")
+    sc = Scenario()
+    PAD = [0, 32, 1]       # '@' ' ' 'A'
+    for (t, off, n) in TEXT_FIELDS:
+        sc.unit()
+        for nch in ([n] if n else [1, 6, 20]):
+            head = min(2, nch)
+            tail = min(3, nch - head)
+            for hp in itertools.product(PAD, repeat=head):
+                for tp in (itertools.product(PAD, repeat=tail) if tail else [()]):
+                    codes = [rnd.randrange(1, 27) for _ in range(nch)]
+                    if nch > 6:
+                        codes[rnd.randrange(2, nch - 3)] = rnd.choice([0, 32])
+                    codes[:head] = hp
+                    if tail:
+                        codes[nch - tail:] = tp
+                    buf = text_base(tb, rnd, t, nch)
+                    for i, c in enumerate(codes):
+                        buf.put(off + 6 * i, 6, c)
+                    emit(sc, buf, "D")
+            for allc in (0, 32):
+                buf = text_base(tb, rnd, t, nch)
+                for i in range(nch):
+                    buf.put(off + 6 * i, 6, allc)
+                emit(sc, buf, "D")
+                emit(sc, buf, "L")
     return sc
